@@ -161,6 +161,15 @@ func (w *World) Exec(op Op) bool {
 		if id, ok := sel(w.candFree()); ok {
 			return w.Free(id)
 		}
+	case OFreeTop:
+		cf := w.candFree()
+		for i := 0; i < op.A && len(cf) > 0; i++ {
+			id := cf[len(cf)-1]
+			cf = cf[:len(cf)-1]
+			if !w.Free(id) {
+				return false
+			}
+		}
 	case OFlushPage:
 		if id, ok := sel(w.candFlush()); ok {
 			return w.FlushPage(id)
